@@ -810,6 +810,17 @@ impl FixtureDatabase {
     fn find_yield_in_stmt(&self, stmt: &Stmt, line_index: &[usize]) -> Option<usize> {
         match stmt {
             Stmt::Expr(expr_stmt) => self.find_yield_in_expr(&expr_stmt.value, line_index),
+            // `x = yield value`, `x: T = yield value`, `x += yield value`, `return (yield)`
+            Stmt::Assign(assign) => self.find_yield_in_expr(&assign.value, line_index),
+            Stmt::AnnAssign(ann_assign) => ann_assign
+                .value
+                .as_ref()
+                .and_then(|value| self.find_yield_in_expr(value, line_index)),
+            Stmt::AugAssign(aug_assign) => self.find_yield_in_expr(&aug_assign.value, line_index),
+            Stmt::Return(ret) => ret
+                .value
+                .as_ref()
+                .and_then(|value| self.find_yield_in_expr(value, line_index)),
             Stmt::If(if_stmt) => {
                 // Check body
                 for s in &if_stmt.body {
